@@ -597,3 +597,44 @@ Fixpoint bad_parent_fuel (fuel : nat) (h : heap) (p parent : ptr) : bool :=
   end.
 Definition bad_parent (s : pstate) : bool :=
   bad_parent_fuel (Pos.to_nat (pnext s)) (pheap s) (proot s) None.
+
+(* ---------- vocabulary of the theorems about the pointer structure ---------- *)
+(* follow child links from p along a path of directions (RBModel.dir: L | R); None = fell off *)
+Fixpoint walk (h : heap) (p : ptr) (path : list dir) : ptr :=
+  match path with
+  | [] => p
+  | d :: rest =>
+    match p with
+    | None => None
+    | Some i =>
+      match hget h i with
+      | None => None
+      | Some n => walk h (match d with L => nleft n | R => nright n end) rest
+      end
+    end
+  end.
+(* node i is reachable from the root pointer through child links *)
+Definition reachable (s : pstate) (i : id) : Prop :=
+  exists path, walk (pheap s) (proot s) path = Some i.
+
+(* "parent links consistent with child links, and the reachable structure is a tree":
+   1. the root's parent field is nil;
+   2. every reachable node exists in the heap and each of its non-nil children points back to it;
+   3. every reachable node has exactly ONE access path from the root (no sharing, no cycles). *)
+Definition links_ok (s : pstate) : Prop :=
+  (forall r n, proot s = Some r -> hget (pheap s) r = Some n -> npar n = None) /\
+  (forall i, reachable s i -> exists n, hget (pheap s) i = Some n /\
+     (forall c, nleft n = Some c -> exists nc, hget (pheap s) c = Some nc /\ npar nc = Some i) /\
+     (forall c, nright n = Some c -> exists nc, hget (pheap s) c = Some nc /\ npar nc = Some i)) /\
+  (forall p1 p2 i, walk (pheap s) (proot s) p1 = Some i -> walk (pheap s) (proot s) p2 = Some i -> p1 = p2).
+
+(* comparator calls the recursive model attributes to every call of a history *)
+Fixpoint rb_calls_run (cmp : Z -> Z -> Z) (m : rbtree) (ops : list rb_op) : list nat :=
+  match ops with
+  | [] => []
+  | o :: rest =>
+    (match o with
+     | OAdd k _ | ODelete k | OFind k | OSet k _ => cmp_calls cmp k (root m)
+     | OKeyValues | OSize => O
+     end) :: rb_calls_run cmp (fst (rb_step cmp m o)) rest
+  end.
